@@ -55,3 +55,16 @@ Theorem C08_new_stream_shape : skel_tunnelChannel_newStream =
   ["call streamCreation.Lock"; "defer call streamCreation.Unlock"; "call allocateStream"; "call stream.Send"; "call removeStream"; "go func"].
 Proof. exact tunnelChannel_newStream_shape. Qed.
 Print Assumptions C08_new_stream_shape.
+
+(* ---- one RPC end to end (Rpc.v), every interleaving ---- *)
+From GT Require Import Rpc RpcProofs RpcSystem.
+(* each started RPC results in at most one handler invocation; exactly one once the stream was accepted *)
+Theorem C08_rpc_at_most_one_invocation : forall strict ls s, rrun strict r_init ls = Some s ->
+  (n_inv s <= 1)%nat /\ (n_inv s = 1%nat <-> h_live (r_v s) = true).
+Proof. exact rpc_at_most_one_invocation. Qed.
+Print Assumptions C08_rpc_at_most_one_invocation.
+(* each RPC begins with its new-stream frame; the id is never reused, never unknown to the server *)
+Theorem C08_rpc_id_accepted_once : forall strict ls s, rrun strict r_init ls = Some s ->
+  k_err (r_k s) = false /\ v_err (r_v s) = false.
+Proof. exact rpc_tunnel_survives. Qed.
+Print Assumptions C08_rpc_id_accepted_once.
